@@ -7,9 +7,11 @@ Definition (exact `Fraction` arithmetic on the label-keyed polynomials of `c05.R
 
 (i)  correspondence: the real reports vs the Lean model (`lean/DimodModel/Feasibility.lean`, driver
      `cqmdriver`, command `feas`): `iter_constraint_data`, `iter_violations` (plain / skip_satisfied / clip),
-     `check_feasible`, and `SampleSet.from_samples_cqm` (is_satisfied, is_feasible, energy);
+     both also with the `labels=` argument (None, empty, permuted subsets with repeats, an unknown label: driver
+     command `feasl`), `check_feasible`, and `SampleSet.from_samples_cqm` (is_satisfied, is_feasible, energy);
 (ii) property predicate: every one of those reports, plus `violations`, `ExactCQMSolver.sample_cqm`, against
-     the definition above, for several rows with mixed satisfaction and dyadic tolerances including 0.
+     the definition above, for several rows with mixed satisfaction and dyadic tolerances including 0, and with the
+     documented default tolerances (rtol=1e-6, atol=1e-8, passed by omission) taken as the exact rationals of those floats.
 
 Both are driven **along histories on ONE model object** (like C05), not only on freshly built models: after the first
 evaluation the same `cqm` is mutated (relabel_variables with swaps / cycles of labels that stay in the model, relabel to new
@@ -303,9 +305,23 @@ def evaluate(ctx, r, out, cqm, ref, st):
     rows = [[rand_value(r, ref.vars[v]) for v in labs] for _ in range(nrows)]
     atol, rtol = F(r.choice(TOLS)), F(r.choice(TOLS))
     fa, fr_ = float(atol), float(rtol)
+    tolkw = f', rtol={fr_!r}, atol={fa!r}'
+    tol = dict(rtol=fr_, atol=fa)
+    if r.random() < .25:
+        # the documented defaults (rtol=1e-6, atol=1e-8), passed by NOT passing them, or another non-dyadic pair: the
+        # definition uses the exact rational value of those floats.  Every violation here is 0 or a multiple of 2^-14
+        # while atol + rtol*|rhs| < 2^-18, so the float rounding of that sum cannot change a comparison: still exact.
+        if r.random() < .6:
+            atol, rtol, tolkw, tol = F(1e-8), F(1e-6), '', {}
+        else:
+            atol, rtol = F(1e-9), F(3e-7)
+            tolkw, tol = ', rtol=3e-07, atol=1e-09', dict(rtol=3e-7, atol=1e-9)
+        fa, fr_ = float(atol), float(rtol)
+        ctx.tick('non-dyadic tolerances' + (' (defaults)' if not tol else ''))
     clabels = list(ref.cons)
     pre = c05.PRELUDE + 'from dimod import SampleSet, ExactCQMSolver\n' + '\n'.join(src) + '\n'
     key = (tuple(lines), tuple(map(tuple, rows)), atol, rtol)
+    extra_out = []   # `labels=` lines for the Lean driver, sent right after the `feas` line of this evaluation
     # the order in which the sample names its variables: kept from the previous evaluation of this object where possible
     # (labels that are still there keep their place), otherwise the model's order
     if st['order'] is not None and r.random() < .8:
@@ -347,7 +363,7 @@ def evaluate(ctx, r, out, cqm, ref, st):
             v0 = list(cqm.iter_violations(sample)); v1 = list(cqm.iter_violations(sample, skip_satisfied=True))
             v2 = list(cqm.iter_violations(sample, clip=True))
             d0 = cqm.violations(sample); d1 = cqm.violations(sample, skip_satisfied=True); d2 = cqm.violations(sample, clip=True)
-            cf = cqm.check_feasible(sample, rtol=fr_, atol=fa)
+            cf = cqm.check_feasible(sample, **tol)
         except Exception as e:  # noqa
             fail('CQM.iter_constraint_data', 'raises', f'{type(e).__name__}: {e}', f'list(cqm.iter_constraint_data({sample!r}))\n')
             return False
@@ -383,6 +399,67 @@ def evaluate(ctx, r, out, cqm, ref, st):
                 break
         if not ok:
             break
+        # ---- the `labels=` argument (first row of every evaluation): default None, an explicit empty selection, a
+        # permuted subset (possibly with a repeat), everything reversed, and a selection with an unknown label
+        if row is rows[0]:
+            sels = [None, []]
+            if clabels:
+                sub = r.sample(clabels, r.randint(1, len(clabels)))
+                if r.random() < .3:
+                    sub.append(r.choice(sub))
+                sels += [sub, list(reversed(clabels))]
+                bad = list(sub); bad.insert(r.randrange(len(bad) + 1), 'nope'); sels.append(bad)
+            else:
+                sels.append(['nope'])
+            for ls in sels:
+                conv = r.choice([list, tuple]) if ls is not None else (lambda z: z)
+                lsrc = 'None' if ls is None else repr(conv(ls))
+                want_raise = ls is not None and any(l not in ref.cons for l in ls)
+                sel = clabels if ls is None else ls
+                ctx.tick('labels=' + ('None' if ls is None else 'empty' if not ls else 'unknown label' if want_raise else 'selection'))
+
+                def lcall(f):
+                    try:
+                        return list(f())
+                    except ValueError:
+                        return 'raise:value'
+                    except Exception as e:  # noqa
+                        return 'raise:' + type(e).__name__
+                arg = None if ls is None else conv(ls)
+                gd = lcall(lambda: cqm.iter_constraint_data(sample, labels=arg))
+                g0 = lcall(lambda: cqm.iter_violations(sample, labels=arg))
+                g1 = lcall(lambda: cqm.iter_violations(sample, skip_satisfied=True, labels=arg))
+                g2 = lcall(lambda: cqm.iter_violations(sample, clip=True, labels=arg))
+                shd = gd if isinstance(gd, str) else ','.join(
+                    f'{lab(d.label)}:{rat(d.lhs_energy)}:{rat(d.rhs_energy)}:{d.sense.value}:{rat(d.activity)}:{rat(d.violation)}' for d in gd)
+                shv = lambda g: g if isinstance(g, str) else ','.join(f'{lab(a)}={rat(b)}' for a, b in g)   # noqa: E731
+                larg = 'none' if ls is None else (','.join(lab(l) for l in ls) or '-')
+                extra_out.append(dict(lines=[f'feasl {larg} ' + (','.join(rat(a) for a in row) or '-')],
+                                      expect=f'L {shd}|{shv(g0)}|{shv(g1)}|{shv(g2)}', src=list(src), rows=[row]))
+                if want_raise:
+                    okl = gd == g0 == g1 == g2 == 'raise:value'
+                    wantd = 'ValueError (unknown constraint label)'
+                else:
+                    wd = [(l, per[l][0], ref.cons[l].rhs, ref.cons[l].sense, per[l][1], per[l][2]) for l in sel]
+                    okl = (not isinstance(gd, str) and not isinstance(g0, str) and not isinstance(g1, str) and not isinstance(g2, str)
+                           and [(d.label, F(float(d.lhs_energy)), F(float(d.rhs_energy)), d.sense.value, F(float(d.activity)), F(float(d.violation))) for d in gd] == wd
+                           and [(a, F(float(b))) for a, b in g0] == [(l, per[l][2]) for l in sel]
+                           and [(a, F(float(b))) for a, b in g1] == [(l, per[l][2]) for l in sel if per[l][2] > 0]
+                           and [(a, F(float(b))) for a, b in g2] == [(l, max(per[l][2], F(0))) for l in sel])
+                    wantd = f'the data of {list(sel)!r} in that order'
+                if not okl:
+                    got0 = g0 if isinstance(g0, str) else [(a, float(b)) for a, b in g0]
+                    fail('CQM.iter_violations', 'labels=' + ('None' if ls is None else 'empty selection' if not ls else 'unknown label' if want_raise else 'selection'),
+                         f'iter_constraint_data / iter_violations({sample!r}, labels={lsrc}): expected {wantd}; iter_violations gave {got0!r}, '
+                         f'iter_constraint_data {"raised" if isinstance(gd, str) else [d.label for d in gd]}',
+                         f'print(list(cqm.iter_violations({sample!r}, labels={lsrc})))\nprint([d.label for d in cqm.iter_constraint_data({sample!r}, labels={lsrc})])\n'
+                         + (f'assert False, "expected ValueError"\n' if want_raise else
+                            f'assert [l for l, _ in cqm.iter_violations({sample!r}, labels={lsrc})] == {list(sel)!r}\n'
+                            f'assert [d.label for d in cqm.iter_constraint_data({sample!r}, labels={lsrc})] == {list(sel)!r}\n'))
+                    ok = False
+                    break
+            if not ok:
+                break
         # the same sample as an explicit NumPy row of every integer dtype that holds it (the C++ loops are
         # instantiated per sample dtype; products of two sample values must not be formed in that type)
         if labs and all(float(a).is_integer() for a in row):
@@ -394,7 +471,7 @@ def evaluate(ctx, r, out, cqm, ref, st):
                 ctx.tick('row dtype ' + np.dtype(dt).name)
                 try:
                     gd = {a: F(float(b)) for a, b in cqm.violations((arr1, sorder)).items()}
-                    cfd = bool(cqm.check_feasible((arr1, sorder), rtol=fr_, atol=fa))
+                    cfd = bool(cqm.check_feasible((arr1, sorder), **tol))
                 except Exception as e:  # noqa
                     fail('CQM.violations', 'raises', f'{type(e).__name__}: {e} for a {np.dtype(dt).name} row', f'cqm.violations((np.array([{srow!r}], dtype=np.{np.dtype(dt).name}), {sorder!r}))\n')
                     ok = False
@@ -412,8 +489,8 @@ def evaluate(ctx, r, out, cqm, ref, st):
             soft_bad = any(not per[l][3] for l in clabels if ref.cons[l].weight is not None)
             const_bad = any(not ref.cons[l].p.order for l in clabels)
             icls = 'violated soft constraint' if (hard_ok and soft_bad and not cf) else ('constant-only constraint' if const_bad else 'general')
-            fail('CQM.check_feasible', icls, f'check_feasible({sample!r}, rtol={fr_}, atol={fa}) = {cf}, definition (every hard constraint satisfied) {feas}',
-                 f'assert cqm.check_feasible({sample!r}, rtol={fr_!r}, atol={fa!r}) == {feas}\n')
+            fail('CQM.check_feasible', icls, f'check_feasible({sample!r}{tolkw}) = {cf}, definition (every hard constraint satisfied) {feas}',
+                 f'assert cqm.check_feasible({sample!r}{tolkw}) == {feas}\n')
             ok = False
             break
     if not ok:
@@ -433,7 +510,7 @@ def evaluate(ctx, r, out, cqm, ref, st):
     sl = (arr[:, perm], [labs[i] for i in perm])
     slsrc = f'(np.array({arr[:, perm].tolist()!r}, dtype=np.{np.dtype(dt).name}), {[labs[i] for i in perm]!r})' if labs else f'(np.empty(({nrows}, 0)), [])'
     try:
-        ss = SampleSet.from_samples_cqm(sl, cqm, rtol=fr_, atol=fa)
+        ss = SampleSet.from_samples_cqm(sl, cqm, **tol)
         rec = ss.record
         sat_m = [[bool(b) for b in rec.is_satisfied[i]] for i in range(nrows)]
         fe_v = [bool(b) for b in rec.is_feasible]
@@ -441,7 +518,7 @@ def evaluate(ctx, r, out, cqm, ref, st):
         # rows come back in the order given; columns in ss.variables order
         back = [[F(float(rec.sample[i][list(ss.variables).index(v)])) for v in labs] for i in range(nrows)]
     except Exception as e:  # noqa
-        fail('SampleSet.from_samples_cqm', 'raises', f'{type(e).__name__}: {e}', f'SampleSet.from_samples_cqm({slsrc}, cqm, rtol={fr_!r}, atol={fa!r})\n')
+        fail('SampleSet.from_samples_cqm', 'raises', f'{type(e).__name__}: {e}', f'SampleSet.from_samples_cqm({slsrc}, cqm{tolkw})\n')
         return False
     if labs:
         ran.append(f'cqm.violations({ {v: rows[0][i] for v, i in zip(sorder, spos)} !r}); cqm.check_feasible({ {v: rows[0][i] for v, i in zip(sorder, spos)} !r})')
@@ -451,6 +528,7 @@ def evaluate(ctx, r, out, cqm, ref, st):
     out.append(dict(lines=st['pending'] + [f'feas {rat(atol)} {rat(rtol)} {rows_arg}'],
                     expect='P ' + ' ; '.join(per_row) + f' V {vec} W {vec}', src=list(src), rows=rows))
     st['pending'] = []
+    out.extend(extra_out)
     if back != [[F(a) for a in row] for row in rows] or ss.info.get('constraint_labels') != clabels:
         fail('SampleSet.from_samples_cqm', 'rows/labels', 'samples or constraint labels not as given',
              f'ss = SampleSet.from_samples_cqm({slsrc}, cqm)\nassert ss.info["constraint_labels"] == {clabels!r}\n')
@@ -464,16 +542,16 @@ def evaluate(ctx, r, out, cqm, ref, st):
         if sat_m[i] != wsat:
             j = next(j for j in range(len(clabels)) if sat_m[i][j] != wsat[j])
             fail('SampleSet.from_samples_cqm', cls_of(ref, clabels[j]), f'is_satisfied row {i} = {sat_m[i]}, definition {wsat}',
-                 f'ss = SampleSet.from_samples_cqm({slsrc}, cqm, rtol={fr_!r}, atol={fa!r})\nassert list(ss.record.is_satisfied[{i}]) == {wsat!r}\n')
+                 f'ss = SampleSet.from_samples_cqm({slsrc}, cqm{tolkw})\nassert list(ss.record.is_satisfied[{i}]) == {wsat!r}\n')
             return False
         if fe_v[i] != feas:
             fail('SampleSet.from_samples_cqm', 'is_feasible', f'is_feasible row {i} = {fe_v[i]}, definition {feas}',
-                 f'ss = SampleSet.from_samples_cqm({slsrc}, cqm, rtol={fr_!r}, atol={fa!r})\nassert bool(ss.record.is_feasible[{i}]) == {feas}\n')
+                 f'ss = SampleSet.from_samples_cqm({slsrc}, cqm{tolkw})\nassert bool(ss.record.is_feasible[{i}]) == {feas}\n')
             return False
         if en_v[i] != en:
             icls = 'constant-only objective' if (not ref.obj.order and F(float(cqm.objective.energy(dict(zip(labs, row))))) != value(ref.obj, x)) else 'energy'
             fail('SampleSet.from_samples_cqm', icls, f'energy row {i} = {float(en_v[i])}, definition {float(en)}',
-                 f'ss = SampleSet.from_samples_cqm({slsrc}, cqm, rtol={fr_!r}, atol={fa!r})\nassert ss.record.energy[{i}] == {float(en)!r}, ss.record.energy\n')
+                 f'ss = SampleSet.from_samples_cqm({slsrc}, cqm{tolkw})\nassert ss.record.energy[{i}] == {float(en)!r}, ss.record.energy\n')
             return False
     ctx.case(key, nontrivial=nontrivial, sample=dict(build=src, rows=rows, atol=str(atol), rtol=str(rtol)))
     # ---------------- exact solver on small models
@@ -483,9 +561,9 @@ def evaluate(ctx, r, out, cqm, ref, st):
         dom.append(None if vt == 'REAL' or hi - lo > 200 else ([0, 1] if vt == 'BINARY' else [-1, 1] if vt == 'SPIN' else list(range(int(lo), int(hi) + 1))))
     if labs and all(d is not None for d in dom) and np.prod([len(d) for d in dom]) <= 150 and r.random() < .5:
         try:
-            es = dimod.ExactCQMSolver().sample_cqm(cqm, rtol=fr_, atol=fa)
+            es = dimod.ExactCQMSolver().sample_cqm(cqm, **tol)
         except Exception as e:  # noqa
-            fail('ExactCQMSolver.sample_cqm', 'raises', f'{type(e).__name__}: {e}', f'ExactCQMSolver().sample_cqm(cqm, rtol={fr_!r}, atol={fa!r})\n')
+            fail('ExactCQMSolver.sample_cqm', 'raises', f'{type(e).__name__}: {e}', f'ExactCQMSolver().sample_cqm(cqm{tolkw})\n')
             return False
         ctx.tick('exact_solver')
         ran.append(f'ExactCQMSolver().sample_cqm(cqm)')
@@ -500,7 +578,7 @@ def evaluate(ctx, r, out, cqm, ref, st):
                     or F(float(es.record.energy[i])) != en):
                 fail('ExactCQMSolver.sample_cqm', 'row', f'row {dict((k, float(a)) for k, a in x.items())}: energy {es.record.energy[i]}, feasible {es.record.is_feasible[i]}, satisfied {gsat}; '
                      f'definition {float(en)}, {feas}, {[per[l][3] for l in clabels]}',
-                     f'es = ExactCQMSolver().sample_cqm(cqm, rtol={fr_!r}, atol={fa!r})\nprint(es)\nassert False\n')
+                     f'es = ExactCQMSolver().sample_cqm(cqm{tolkw})\nprint(es)\nassert False\n')
                 return False
         if seen != set(itertools.product(*[[F(a) for a in d] for d in dom])):
             fail('ExactCQMSolver.sample_cqm', 'enumeration', 'the rows are not exactly the assignments of the variables\' domains',
